@@ -550,7 +550,7 @@ def replay(cases):
     runs, text = {}, []
     stuck = 0
     for i, c in enumerate(cases):
-        r = run_impl(c, budget=(5.0 if c.get('poll') else 20.0) if stuck == 0 else 3.0)
+        r = run_impl(c, budget=20.0 if stuck == 0 else 8.0)      # CPU seconds; generous: CPU time inflates several-fold on a loaded machine
         runs[c['cid']] = r
         for _, uc, ur, replayed in units(c, r):
             if replayed:
